@@ -230,4 +230,89 @@ example : Constructed toyEnv ⟨toyKey ++ List.replicate 64 1 ++ be64 9 ++ toyDn
 example : signable 1700000000000000 [1, 2, 3] = ascii "3:seqi1700000000000000e1:v3:" ++ [1, 2, 3] := by
   decide
 
+/-! ### untrusted-input callers of the constructors
+
+* `PkarrRelayClient::resolve` (iroh): `resolveViaRelay` below — proved here.
+* iroh-dns-server `PUT /pkarr/{key}`: `from_relay_payload(key from the URL, body)`; composed with
+  the server model in C36 (`C36.put_acceptance_is_c32_acceptance`).
+* iroh-dns-server store: `deserialize` / `mutable_item_to_signed_packet` use
+  `from_bytes_unchecked` / `from_parts_unchecked` on the server's OWN storage and on DHT items
+  (trusted / verified elsewhere): no signature check by design; `inspect_total` covers them. -/
+
+/-- **The resolver accepts only packets of the key it asked for.**  `PkarrRelayClient::resolve`
+returns a packet for endpoint id `asked` exactly when the status is a success status and the body
+is an authentic relay payload UNDER `asked`; the returned packet is `asked ‖ body`. -/
+theorem resolver_accept_iff (E : Env) (asked body : Bytes) (status : Nat) (hk : asked.length = 32)
+    (p : Packet) :
+    resolveViaRelay E asked status body = .ok p ↔
+      (200 ≤ status ∧ status ≤ 299) ∧
+      (72 ≤ body.length ∧ body.length ≤ 1072 ∧ E.validPoint asked = true ∧
+       E.verify asked (signable (beNat ((body.drop 64).take 8)) (body.drop 72)) (body.take 64) = true ∧
+       E.dnsParses (body.drop 72) = true) ∧ p = ⟨asked ++ body⟩ := by
+  unfold resolveViaRelay
+  by_cases hs : 200 ≤ status ∧ status ≤ 299
+  · rw [if_pos hs]
+    cases hr : fromRelayPayload E asked body with
+    | ok q =>
+      have := (relay_accept_iff_authentic E asked body hk q).mp hr
+      constructor
+      · intro h; cases h; exact ⟨hs, this.1, this.2⟩
+      · rintro ⟨_, _, rfl⟩; rw [this.2]
+    | error e =>
+      constructor
+      · intro h; cases h
+      · rintro ⟨_, ha, rfl⟩
+        have := (relay_accept_iff_authentic E asked body hk ⟨asked ++ body⟩).mpr ⟨ha, rfl⟩
+        rw [hr] at this; cases this
+  · rw [if_neg hs]
+    constructor
+    · intro h; cases h
+    · rintro ⟨h, _⟩; exact absurd h hs
+
+/-- Whatever the relay answers — a payload signed by another key, a COMPLETE packet of another
+key, a complete packet of the asked key, garbage — a packet that `resolve(asked)` returns carries
+the asked key, and its signature verifies under the asked key. -/
+theorem resolver_accepts_only_packets_of_asked_key (E : Env) (asked body : Bytes) (status : Nat)
+    (hk : asked.length = 32) (p : Packet) (h : resolveViaRelay E asked status body = .ok p) :
+    p.publicKey E = some asked ∧ keyOf p.bytes = asked ∧
+    E.verify asked (signedMsg p.bytes) (sigOf p.bytes) = true := by
+  obtain ⟨_, ⟨h1, h2, h3, h4, h5⟩, rfl⟩ := (resolver_accept_iff E asked body status hk p).mp h
+  have hkey : keyOf (asked ++ body) = asked := by simp [keyOf, hk]
+  have hacc : fromBytes E (asked ++ body) = .ok ⟨asked ++ body⟩ := by
+    have := (relay_accept_iff_authentic E asked body hk ⟨asked ++ body⟩).mpr ⟨⟨h1, h2, h3, h4, h5⟩, rfl⟩
+    exact this
+  have ha := ((accept_iff_authentic E (asked ++ body) _).mp hacc).1
+  refine ⟨?_, hkey, ?_⟩
+  · simp only [Packet.publicKey, hkey, h3, and_true]
+    rw [if_pos (by simp only [List.length_append, hk]; omega)]
+  · have := ha.2.2.2.1
+    simp only [signedMsg, sigOf, tsOf, tsBytesOf, dnsOf]
+    have hk' : List.take 32 (asked ++ body) = asked := by simpa [keyOf] using hkey
+    rw [hk'] at this
+    exact this
+
+/-- A complete, honestly signed packet of ANOTHER key `y` offered as the response to a lookup of
+`asked` is accepted only if the bytes happen to carry a signature that verifies under `asked` —
+never on the strength of `y`'s own signature. -/
+theorem resolver_ignores_embedded_key (E : Env) (asked y rest : Bytes) (status : Nat)
+    (hk : asked.length = 32) (p : Packet)
+    (h : resolveViaRelay E asked status (y ++ rest) = .ok p) :
+    keyOf p.bytes = asked ∧
+    E.verify asked (signedMsg (asked ++ (y ++ rest))) (sigOf (asked ++ (y ++ rest))) = true := by
+  obtain ⟨_, hkey, hver⟩ := resolver_accepts_only_packets_of_asked_key E asked (y ++ rest) status hk p h
+  obtain ⟨_, _, rfl⟩ := (resolver_accept_iff E asked (y ++ rest) status hk p).mp h
+  exact ⟨hkey, hver⟩
+
+/-- Non-vacuity: the toy resolver accepts an honest payload with status 200, rejects the same
+payload with status 404 and rejects a complete packet of the toy key offered as a payload. -/
+example : resolveViaRelay toyEnv toyKey 200 ((toyKey ++ toyKey) ++ be64 5 ++ toyDns) =
+    .ok ⟨toyKey ++ ((toyKey ++ toyKey) ++ be64 5 ++ toyDns)⟩ := by rfl
+example : resolveViaRelay toyEnv toyKey 404 ((toyKey ++ toyKey) ++ be64 5 ++ toyDns) =
+    .error (.httpRequest 404) := by rfl
+set_option maxRecDepth 8192 in
+example : (match resolveViaRelay toyEnv (List.replicate 32 9) 200
+      (toyKey ++ (toyKey ++ toyKey) ++ be64 5 ++ toyDns) with
+    | .error (.verify .signatureError) => true
+    | _ => false) = true := by decide
+
 end IrohModel.C32
